@@ -167,6 +167,17 @@ def run():
     if v1.status != 'proved': fails.append(f'prove: valid obligation not proved ({v1.status})')
     v2 = core.prove([], T(a[0] * a[0]) > 0); n_cases[0] += 1
     if v2.status != 'refuted': fails.append(f'prove: invalid obligation not refuted ({v2.status})')
+    # ---- numeric twin comparator: agreeing values pass, disagreeing ones fail - including infinite and NaN values
+    from .ctx import Ctx
+    def twin_fails(a_, b_, tol=None):
+        cx = Ctx('num', rng=np.random.default_rng(0)); cx.begin_path(); cx.eq('t', a_, b_, tol=tol); return len(cx.numfails)
+    for nm, a_, b_, want in (('equal', np.array([1.0, 2.0]), np.array([1.0, 2.0 + 1e-12]), 0), ('different', np.array([1.0, 2.0]), np.array([1.0, 2.1]), 1),
+                             ('minus_inf_vs_finite', -np.inf, -3.0, 1), ('finite_vs_inf', np.array([1.0, 5.0]), np.array([1.0, np.inf]), 1), ('inf_vs_inf', np.inf, np.inf, 0),
+                             ('inf_vs_minus_inf', np.inf, -np.inf, 1), ('nan_vs_nan', np.nan, np.nan, 0), ('nan_vs_finite', np.nan, 1.0, 1), ('shape', np.ones(2), np.ones(3), 1)):
+        n_cases[0] += 1
+        if twin_fails(a_, b_) != want: fails.append(f'numeric twin comparator: case {nm} gave {twin_fails(a_, b_)} failures, expected {want}')
+    cx = Ctx('num', rng=np.random.default_rng(0)); n_cases[0] += 1
+    if cx.close(-np.inf, 2.0) or not cx.close(2.0, 2.0 + 1e-13): fails.append('numeric twin close(): infinite value close to a finite one')
     return n_cases[0], fails
 
 
